@@ -22,12 +22,12 @@ import (
 
 func init() {
 	simkit.Register(&simkit.Prop{
-		ID:   "C32",
-		Desc: "synced block headers carry signatures of more than C consensus peers",
-		Rule: "a run = a syncing node on a VBFT-genesis chain (N=4,C=1 or N=7,C=2) that receives 4..14 next-height headers / blocks from a Byzantine sync peer as BYTES (real header codec / p2p Block message codec) through AddHeaders or AddBlock; the header content is a well-formed VBFT block of the right height, the signer section is tape-chosen: C+1 or more distinct members with valid signatures, exactly C valid signers plus members listed without / with invalid / with foreign signatures, one member listed twice, a non-member, signatures in another order than keys, fewer signatures than keys. Oracle: the ledger ACCEPTS (header height or block height advances, header retrievable) only if at least C+1 DISTINCT members of the chain configuration governing that height have a valid signature over the header hash. non-trivial = >= 1 accepted and >= 1 rejected; distinct = distinct event-trace hash",
-		Real: []string{"core/store/ledgerstore AddHeaders / AddBlock / verifyHeader", "core/signature.VerifyMultiSignature", "core/types header codec, p2pserver/message/types Block message codec", "consensus/vbft/config block info", "core/genesis with a VBFT configuration"},
-		Stub: []string{"Byzantine sync peer and honest block source (harness builds VBFT blocks by hand)", "sync driver"},
-		Assumptions: []string{"the simulator dimension is forgery by a faulty sync peer; the chain configuration stays the genesis one (no epoch change)"},
+		ID:             "C32",
+		Desc:           "synced block headers carry signatures of more than C consensus peers",
+		Rule:           "a run = a syncing node on a VBFT-genesis chain (N=4,C=1 or N=7,C=2) that receives 4..14 next-height headers / blocks from a Byzantine sync peer as BYTES (real header codec / p2p Block message codec) through AddHeaders or AddBlock; the header content is a well-formed VBFT block of the right height, the signer section is tape-chosen: C+1 or more distinct members with valid signatures, exactly C valid signers plus members listed without / with invalid / with foreign signatures, one member listed twice, a non-member, signatures in another order than keys, fewer signatures than keys. Oracle: the ledger ACCEPTS (header height or block height advances, header retrievable) only if at least C+1 DISTINCT members of the chain configuration governing that height have a valid signature over the header hash. non-trivial = >= 1 accepted and >= 1 rejected; distinct = distinct event-trace hash",
+		Real:           []string{"core/store/ledgerstore AddHeaders / AddBlock / verifyHeader", "core/signature.VerifyMultiSignature", "core/types header codec, p2pserver/message/types Block message codec", "consensus/vbft/config block info", "core/genesis with a VBFT configuration"},
+		Stub:           []string{"Byzantine sync peer and honest block source (harness builds VBFT blocks by hand)", "sync driver"},
+		Assumptions:    []string{"the simulator dimension is forgery by a faulty sync peer; the chain configuration stays the genesis one (no epoch change)"},
 		ExpectedProbes: []string{"accepted", "rejected"},
 		Run:            runC32,
 	})
